@@ -27,8 +27,8 @@ ASSUMPTIONS = [
     "commands no ordering rule mentions are not ranked; ties inside one rank are not judged",
     "metamorphic relation is evaluated only when the reduced patch's commands are a sub-multiset of the full patch's commands (otherwise the deleted row was not unrelated)",
 ]
-FLOORS = {"quick": {"patches_ranked": 1500, "ranked_pairs": 3000, "sort_calls": 3000, "configs_ordered": 1500, "metamorphic_pairs": 150, "several_global_rule_cases": 300},
-          "thorough": {"patches_ranked": 60000, "ranked_pairs": 100000, "sort_calls": 100000, "configs_ordered": 60000, "metamorphic_pairs": 300, "several_global_rule_cases": 10000}}
+FLOORS = {"quick": {"patches_ranked": 1500, "ranked_pairs": 3000, "sort_calls": 3000, "configs_ordered": 1500, "metamorphic_pairs": 150, "several_global_rule_cases": 300, "echoed_family_cases": 300, "unordered_blocks_compared": 500},
+          "thorough": {"patches_ranked": 60000, "ranked_pairs": 100000, "sort_calls": 100000, "configs_ordered": 60000, "metamorphic_pairs": 300, "several_global_rule_cases": 10000, "echoed_family_cases": 10000, "unordered_blocks_compared": 15000}}
 VENDORS = c01.BLOCK_VENDORS
 KNOWN_ZERO = "C08/first-ordering-rule-has-rank-zero"
 
@@ -41,7 +41,7 @@ def plan(tier, seed):
     return specs
 
 
-def gen_order(rng, rules, prefix, depth=0, many_globals=False):
+def gen_order(rng, rules, prefix, depth=0, many_globals=False, echo=False):
     pats = [r for r in rules if r.pat != "~" and not r.ignore]
     rng.shuffle(pats)
     out = []
@@ -57,6 +57,9 @@ def gen_order(rng, rules, prefix, depth=0, many_globals=False):
             out.append(RO.ORule(prefix + " " + r.pat, order_reverse=True))
             continue
         o = RO.ORule(r.pat)
+        if echo and r.children and depth == 0 and rng.random() < 0.7:
+            out.append(o)  # a block the ordering rulebook mentions without saying anything about its children
+            continue
         if r.children and rng.random() < 0.8:
             o.children = gen_order(rng, r.children, prefix, depth + 1, many_globals)
         elif not r.children and rng.random() < 0.1:
@@ -103,6 +106,14 @@ def check_level(items, olevel, prefix, rl, rg, acc, w, path=()):
         rem = row.startswith(prefix + " ")
         rk, ch_level = RO.rank(row, olevel, prefix, rem)
         info.append((row, rem, rk, ch_level, child))
+    if not olevel and path and "_neutral" in w:
+        acc.count("unordered_blocks_compared")
+        want = w["_neutral"].get(tuple(path))
+        got = [x[0] for x in info]
+        if want is not None and sorted(want) == sorted(got) and want != got:
+            acc.violation("C08/unordered-block-reordered", "no ordering rule is in force inside this block, yet its commands are not in the order an empty ordering rulebook gives",
+                          dict({k: v for k, v in w.items() if not k.startswith("_")}, block=list(path), emitted_order=got, neutral_order=want))
+            return
     ranked = [(i, x) for i, x in enumerate(info) if x[2] is not None]
     if len({x[2] for _, x in ranked}) >= 2:
         w["_nontrivial"] = True
@@ -179,7 +190,7 @@ def check_config_level(tree_before, tree_after, olevel, prefix, acc, w, path=())
     return True
 
 
-def make_case(seed, many_globals=False):
+def make_case(seed, many_globals=False, echo=False):
     rng = random.Random(seed)
     vname = VENDORS[rng.randrange(len(VENDORS))]
     v, prefix, exitw, hw, fmt = c01.vendor_env(vname)
@@ -191,23 +202,34 @@ def make_case(seed, many_globals=False):
             rules[0:0] = leaves[-2:]
         for r in leaves[:3]:
             r.glob, r.logic, r.ordered = True, None, False
-    order = gen_order(rng, rules, prefix, 0, many_globals)
+    if echo:
+        # command families that exist both at the top level and inside blocks (`description`, `shutdown`, ...): the top-level
+        # ordering rules for them say nothing about their order inside a block
+        leaves = [r for r in rules if not r.children and r.pat != "~" and not r.glob and not r.pat.startswith(prefix + " ")]
+        for b in rules:
+            if b.children and not any(c.rewrite or c.ordered for c in b.children):
+                for l_ in leaves[:3]:
+                    if all(c.pat != l_.pat for c in b.children):
+                        b.children.append(RB.Rule(l_.pat))
+    order = gen_order(rng, rules, prefix, 0, many_globals, echo)
     old = G.gen_tree(rng, rules, fill=0.75)
     new = G.mutate_tree(rng, old, rules, rate=0.6) if rng.random() < 0.7 else G.gen_tree(rng, rules, fill=0.75)
     return vname, rules, order, old, new
 
 
-def check_case(seed, acc, many_globals=False):
+def check_case(seed, acc, many_globals=False, echo=False):
     from annet.api import _diff_and_patch
     from annet.annlib.patching import Orderer
     from annet.annlib.rbparser.ordering import compile_ordering_text
     install_sort_hook()
-    vname, rules, order, old, new = make_case(seed, many_globals)
+    vname, rules, order, old, new = make_case(seed, many_globals, echo)
     if many_globals:
         acc.count("several_global_rule_cases")
+    if echo:
+        acc.count("echoed_family_cases")
     v, prefix, exitw, hw, fmt = c01.vendor_env(vname)
     rtext, otext = RB.render(rules), RO.render(order)
-    w = {"seed": seed, "many_globals": many_globals, "vendor": vname, "rulebook": rtext, "ordering": otext, "old": plain(old), "new": plain(new)}
+    w = {"seed": seed, "many_globals": many_globals, "echo": echo, "vendor": vname, "rulebook": rtext, "ordering": otext, "old": plain(old), "new": plain(new)}
     try:
         rb = c01.compile_rb(rtext, vname)
         rb["ordering"] = compile_ordering_text(otext, vname)
@@ -223,7 +245,25 @@ def check_case(seed, acc, many_globals=False):
     w["patch"] = fmt.patch(patch).split("\n")[:60]
     rl, rg = RB.split_level(rules)
     acc.count("patches_ranked")
+    # the neutral order: the same patch computed with an empty ordering rulebook; a block for whose children no ordering rule
+    # is in force must hold its commands in that order
+    try:
+        rb0 = dict(rb, ordering=compile_ordering_text("", vname))
+        _, patch0 = _diff_and_patch(c01.Dev(hw), old, new, None, None, False, rb=rb0)
+        neutral = {}
+
+        def walk0(pt, path):
+            neutral[path] = [str(i.row) for i in pt.itms]
+            for i in pt.itms:
+                if i.child is not None:
+                    walk0(i.child, path + (str(i.row),))
+        walk0(patch0, ())
+        w["_neutral"] = neutral
+    except Exception as e:
+        acc.violation("C08/exception/%s" % type(e).__name__, "patch computation with an empty ordering rulebook raised", dict(w, error=repr(e)[:300]))
+        return None
     check_level([(str(i.row), i.child) for i in patch.itms], order, prefix, rl, rg, acc, w)
+    w.pop("_neutral", None)
     acc.case([vname, rtext, otext, w["old"], w["new"]], nontrivial=bool(w.pop("_nontrivial", False)))
     # order_config on new (what `annet gen` prints); negated rows are legitimate config lines too (`undo portswitch`)
     from vf.props import c06
@@ -357,7 +397,7 @@ def run_shard(spec, acc):
         if w.get("meta"):
             run_meta({"tier": "thorough", "shard": 0, "nshards": 1, "only": w.get("sample")}, acc)
         else:
-            check_case(w["seed"], acc, many_globals=bool(w.get("many_globals")))
+            check_case(w["seed"], acc, many_globals=bool(w.get("many_globals")), echo=bool(w.get("echo")))
         return
     if spec["mode"] == "meta":
         return run_meta(spec, acc)
@@ -370,3 +410,5 @@ def run_shard(spec, acc):
             acc.sample({k2: w.get(k2) for k2 in ("vendor", "rulebook", "ordering", "old", "new", "patch")})
         if j % 5 == 4:
             check_case(rng.randrange(1 << 48), acc, many_globals=True)
+        if j % 5 == 2:
+            check_case(rng.randrange(1 << 48), acc, echo=True)
